@@ -10,21 +10,26 @@ SPEC = dict(
                 "a well-formed hash-set trie iterates each tuple once; contains <-> membership in recursive_iter; new_from / any insert "
                 "history holds exactly the inserted tuples; rows(merge) = union; is_bot <-> no rows; prefix_iter(p) = filter of the rows "
                 "by prefix; get(head) = rows with that key column; DeepJoin = relational equi-join on the key columns; cartesian product "
-                "= all concatenations; force keeps the rows; == <-> same rows and partial_cmp = inclusion order (Equal/Less/Greater/None) "
+                "= all concatenations; force keeps the rows; multiset storages: insert/merge_node are multiset add/union (Perm); COLT forest: "
+                "ColtGet::get (force_drain of the leaf under the cursor, merge_node into the next taller trie, or_default children in the "
+                "taller tries) preserves the multiset of rows of the forest for every chain of gets from the root on every forest; "
+                "== <-> same rows and partial_cmp = inclusion order (Equal/Less/Greater/None) "
                 "under the invariant Good (well-formed + no empty child + no forced leaf), which default/new_from/insert/merge are proved "
                 "to establish and keep. Refuted on concrete witnesses (and reproduced on the real code): without the invariant ==/partial_cmp "
                 "disagree with the rows (F7: join outputs carry empty children; F22: force_drain sets the leaf flag `forced` that the derived "
                 "PartialEq compares). Tie: the model is run as a native driver on the same op histories as the real lattices::ght types "
-                "(6 key/value shapes x hash-set/counted/column storage, bounded-exhaustive op sequences + seeded random + malformed lines) "
+                "(6 key/value shapes x hash-set/counted/column storage, plus ColtType!(u32,u32,u32) forests driven through chained ColtGet::get; "
+                "bounded-exhaustive op sequences + seeded random + malformed lines) "
                 "and every answer incl. a structural dump (through the public GhtGet API) is diffed; the property itself is evaluated on the "
                 "real code against an independent set/multiset oracle."),
     level_note=("Trusted: Lean kernel; HashMap modelled as an association list with distinct keys, leaf storages modelled as lists "
                 "(hash set: no duplicates; counted/column: multiset, iteration order not observed); the Rust variadic type machinery "
                 "(SplitBySuffix, column of a node = its depth) is mirrored by an explicit depth parameter, exercised by correspondence; "
-                "COLT ColtGet::get over a forest is not modelled (only force/force_drain); harness/differ are our code."),
+                "for COLT only the rows-preservation of get chains is a theorem — that the cursor holds exactly the rows with the path as prefix "
+                "is checked on the real code by the oracle (colt-cursor-rows) and by correspondence, not proved; harness/differ are our code."),
     trusted_base=["std::collections::HashMap modelled as an association list with distinct keys; iteration order sorted before comparison",
                   "variadics type-level column selection (SplitBySuffix/Split) modelled by an explicit depth index; exercised, not proved",
                   "leaf storages: the C10 collections, abstracted to set / multiset of rows"],
     assumptions=["columns are u32 (Nat in the model); rows have the schema's arity (enforced by the Rust types, by the parser in the driver)",
-                 "COLT forests (ColtGet::get) are outside the model; force/force_drain are inside"],
+                 "COLT forests are instantiated for arity 3 in the harness (the model and theorems are for every arity)"],
 )
